@@ -87,6 +87,13 @@ func (w *World) Probe(name string) {
 	w.mu.Unlock()
 }
 
+// ProbeAdd adds n to a reach probe.
+func (w *World) ProbeAdd(name string, n int) {
+	w.mu.Lock()
+	w.Res.Probes[name] += n
+	w.mu.Unlock()
+}
+
 // ProbeInit makes sure a probe appears in the evidence even at zero.
 func (w *World) ProbeInit(names ...string) {
 	w.mu.Lock()
